@@ -181,6 +181,42 @@ def analyse(h, mop, ref, pattern, path, norm, *, want=("verdict",)):
     return problems, rfound
 
 
+
+def run_interleaved(shard, h, res, known, rules, lset, maxlen=2):
+    """two matcher objects for the same rule under DIFFERENT flag settings are both constructed before either is used:
+    each must still answer for its own setting (the flags belong to the rule, not to whatever was compiled last)"""
+    from mc.common import flags_config, make_rule_doc
+    jobs = [(r, c1, c2) for r in rules for c1 in CONFIGS for c2 in CONFIGS if c1 != c2]
+    for ji in range(shard["lo"], len(jobs), shard["n"]):
+        pat, c1, c2 = jobs[ji]
+        m1 = h.mop(make_rule_doc(pat, flags_config(*c1)))
+        m2 = h.mop(make_rule_doc(pat, flags_config(*c2)))
+        for cfg, m in ((c1, m1), (c2, m2), (c1, m1)):
+            r = rm.Ref(full_mn=cfg[0], full_op=cfg[1])
+            for idx, path, norm, att in lset:
+                if len(att) > maxlen:
+                    continue
+                res.evaluations += 1
+                got = bool(h.match(m, path))
+                want = r.found(pat, norm)
+                if want:
+                    res.nontrivial += 1
+                if got != want:
+                    res.fail({"clause": "verdict", "family": "interleave", "rule": make_rule_doc(pat, flags_config(*cfg)), "built_together_with": list(c2 if m is m1 else c1),
+                              "listing": [[a, mn, list(o)] for a, mn, o in att], "expected": want, "observed": got, "size": len(att) * 10}, known)
+                    break
+
+
+def replay_interleaved(case, h):
+    from mc.common import flags_config, fmt_listing, make_rule_doc
+    pat = case["rule"]["pattern"]
+    m1 = h.mop(case["rule"])
+    h.mop(make_rule_doc(pat, flags_config(*case["built_together_with"])))      # the second object, built before the first is used
+    att = [(a, m, list(o)) for a, m, o in case["listing"]]
+    got = bool(h.match(m1, h.listing_file(fmt_listing(att))))
+    return got != case["expected"], f"verdict {got}, expected {case['expected']}"
+
+
 # ----------------------------------------------------------------------------- generic family runner
 
 class RuleCase:
